@@ -28,7 +28,7 @@ def run(sc):
                 if (bm.task_id, bm.task_name, bm.labels) != (m.task_id, m.task_name, m.labels): pr.append(f"C08: {fname}: broker message header {bm.task_id, bm.task_name, bm.labels}")
             except Exception as e: pr = [f"C08: {fname}: round trip raised {type(e).__name__}: {e}"]
             if pr: fails.append({'key': fname, 'failed_clauses': pr})
-    return {'reproduced': bool(fails), 'runs': n, 'n_failures': len(fails), 'failures': fails[:5]}
+    return {'reproduced': bool(fails), 'runs': n, 'n_failures': len(fails), 'failures': fails[:400]}
 if __name__ == '__main__':
     sc = json.load(open(sys.argv[1])) if len(sys.argv) > 1 else {}
     print(json.dumps(run(sc.get('scenario', sc)), default=str))
